@@ -1,6 +1,8 @@
 """C14 — runs are numbered uniquely and execute the script that is on display.  Model A."""
 from __future__ import annotations
 
+from typing import Any
+
 from .. import common, lifecycle
 from . import _life
 
@@ -102,10 +104,336 @@ def overlap_reset_run(d: int, from_finished: bool) -> dict:
         return {'d': d, 'from_finished': from_finished, 'error': f'{type(e).__name__}: {e}'}
 
 
+# ---- several Nextline objects in one process ------------------------------------------------------------------------------------------
+# The property is stated per object: what an object puts on display (statement, get_source(), get_source_line()) is the script ITS run
+# executes.  A server hosts several objects in one process and one event loop; whatever one object is started / reset with must not
+# change what another one displays or executes.
+
+MULTI_LIVE = ('initialized', 'running', 'finished')
+
+
+def _norm(lines: list) -> list:
+    lines = list(lines)
+    while lines and lines[-1] == '':
+        lines.pop()
+    return lines
+
+
+def multi_stmt(rng, tag: str) -> tuple:
+    """a script of 1..4 lines (no trailing blanks), unique by its tag; ('s', text) = given as str, ('p', text) = given as a path"""
+    n = rng.randint(1, 4)
+    text = '\n'.join(f'{tag}_{i} = {rng.randint(0, 99)}' for i in range(n)) + rng.choice(['', '\n'])
+    return ('p' if rng.random() < 0.15 else 's', text)
+
+
+def gen_multi(rng, nobj: int, nops: int) -> dict:
+    """a valid serial history over `nobj` objects; only operations the state machine accepts are generated (refused calls are the
+    business of the single-object histories above)"""
+    names = 'ABC'
+    stmts = [multi_stmt(rng, f'{names[i].lower()}0') for i in range(nobj)]
+    state = ['created'] * nobj
+    nreset = [0] * nobj
+    ops: list = []
+    for _ in range(nops):
+        created = [i for i in range(nobj) if state[i] == 'created']
+        cand: list = []
+        for i in range(nobj):
+            st = state[i]
+            if st == 'created':
+                cand += [('start', i)] * 4
+            elif st == 'initialized':
+                cand += [('run', i)] * 2 + [('reset', i)] * 3 + [('close', i)]
+            elif st == 'running':
+                cand += [('exit', i)] * 2
+            elif st == 'finished':
+                cand += [('reset', i)] * 4 + [('close', i)]
+        if len(created) >= 2:
+            cand += [('pstart', None)] * 3
+        resettable = [i for i in range(nobj) if state[i] in ('initialized', 'finished')]
+        if len(resettable) >= 2:
+            cand += [('preset', None)] * 3
+        if not cand:
+            break
+        kind, i = rng.choice(cand)
+
+        def new_stmt(i: int):
+            nreset[i] += 1
+            return multi_stmt(rng, f'{names[i].lower()}{nreset[i]}')
+        if kind == 'start':
+            ops.append(['start', i]); state[i] = 'initialized'
+        elif kind == 'pstart':
+            who = rng.sample(created, rng.randint(2, len(created)))
+            ops.append(['pstart', who])
+            for j in who:
+                state[j] = 'initialized'
+        elif kind == 'reset':
+            ops.append(['reset', i, new_stmt(i) if rng.random() < 0.65 else None]); state[i] = 'initialized'
+        elif kind == 'preset':
+            who = rng.sample(resettable, rng.randint(2, len(resettable)))
+            ops.append(['preset', [[j, new_stmt(j) if rng.random() < 0.8 else None] for j in who]])
+            for j in who:
+                state[j] = 'initialized'
+        elif kind == 'run':
+            ops.append(['run', i]); state[i] = 'running'
+        elif kind == 'exit':
+            ops.append(['exit', i]); state[i] = 'finished'
+        elif kind == 'close':
+            ops.append(['close', i]); state[i] = 'closed'
+    return {'stmts': stmts, 'ops': ops}
+
+
+def multi_corpus() -> list:
+    a, b, c = ('s', 'a = 1\nprint(a)'), ('s', 'import os\nb = 2\nprint(b)\nprint(b, b)\n'), ('s', 'c = 3\n')
+    b2, a2 = ('s', 'bb = 22\nprint(bb)\n'), ('s', 'aa = 11')
+    pa, pb = ('p', 'pa = 1\nprint(pa)\n'), ('p', 'pb = 2\npb += 1\nprint(pb)\n')
+    return [
+        {'stmts': [a, b], 'ops': [['start', 0], ['start', 1], ['run', 0], ['exit', 0], ['run', 1], ['exit', 1]]},
+        {'stmts': [a, b], 'ops': [['start', 0], ['start', 1], ['reset', 1, b2], ['run', 0], ['run', 1], ['exit', 0], ['exit', 1]]},
+        {'stmts': [a, b], 'ops': [['start', 0], ['run', 0], ['start', 1], ['exit', 0], ['reset', 0, None], ['reset', 1, b2], ['run', 0], ['run', 1],
+                                  ['exit', 1], ['close', 1], ['exit', 0], ['reset', 0, None], ['run', 0]]},
+        {'stmts': [a, b, c], 'ops': [['pstart', [0, 1, 2]], ['run', 1], ['preset', [[0, a2], [2, None]]], ['run', 0], ['run', 2], ['exit', 1],
+                                     ['reset', 1, b2], ['exit', 0], ['exit', 2]]},
+        {'stmts': [a, b], 'ops': [['start', 1], ['start', 0], ['close', 0], ['run', 1], ['exit', 1], ['reset', 1, None], ['run', 1]]},
+        {'stmts': [a, pb], 'ops': [['start', 0], ['start', 1], ['run', 0], ['run', 1], ['exit', 0], ['exit', 1], ['reset', 1, b2], ['reset', 0, pa],
+                                   ['run', 0], ['run', 1]]},
+        {'stmts': [pa, pb], 'ops': [['pstart', [0, 1]], ['run', 1], ['run', 0], ['exit', 1], ['reset', 1, b], ['exit', 0]]},
+    ]
+
+
+def multi_object(spec: dict) -> dict:
+    """Drive several Nextline objects (simulated children, one event loop) through spec['ops']; after every operation look at every live
+    object: its statement, get_source() / get_source(<script file name>) / get_source_line(n) must be its own current script, and the
+    RunArg handed to the child of its run and the run info must carry that same script.  spec['schedule']: None = FIFO, int = seed of a
+    random schedule."""
+    import asyncio
+    import random
+    import tempfile
+    from pathlib import Path
+    from .. import fakes, loop as ctl
+    from nextline.spawned import RunResult
+
+    msgs: list = []
+    notes: dict = {}
+    names = 'ABC'
+
+    def note(k: str) -> None:
+        notes[k] = notes.get(k, 0) + 1
+
+    async def main(tmp: str) -> None:
+        from nextline import Nextline
+        world = fakes.reset_world()
+        world.signal_exits = False
+        nfile = [0]
+
+        def mk(st: Any) -> Any:
+            kind, text = st
+            if kind == 's':
+                return text
+            p = Path(tmp) / f'script_{nfile[0]}.py'
+            nfile[0] += 1
+            p.write_text(text)
+            return p
+        objs: list = []
+        for i, st in enumerate(spec['stmts']):
+            s = mk(st)
+            objs.append({'nl': Nextline(s, run_no_start_from=1 + 100 * i), 'stmt': s, 'text': st[1], 'state': 'created', 'child': None,
+                         'name': names[i]})
+
+        def look(when: str) -> None:
+            for o in objs:
+                if o['state'] not in MULTI_LIVE:
+                    continue
+                nl, name, want = o['nl'], o['name'], _norm(o['text'].split('\n'))
+                is_path = not isinstance(o['stmt'], str)
+                note('looks')
+                try:
+                    st = nl.statement
+                    fn = nl.get('script_file_name')
+                except Exception as e:  # noqa
+                    msgs.append(f'{when}: {name}.statement / script file name not readable: {type(e).__name__}: {e}')
+                    continue
+                if st != o['stmt']:
+                    msgs.append(f"{when}: {name}.statement is {st!r}; {name}'s script is {o['stmt']!r}")
+                    continue
+                c = o['child']
+                if o['state'] == 'running' and c is not None and c.run_arg.statement != st:
+                    msgs.append(f'{when}: {name} is running {c.run_arg.statement!r} while {name}.statement is {st!r}')
+                    continue
+                views = [((), 'get_source()'), ((fn,), f'get_source({fn!r})')]
+                if is_path:
+                    views.append(((str(o['stmt']),), 'get_source(<path of the script>)'))
+                for args, label in views:
+                    try:
+                        shown = nl.get_source(*args)
+                    except Exception as e:  # noqa
+                        if is_path and args != (str(o['stmt']),):
+                            note('path-script-not-displayable')      # a script given as a path has no text to show under '<string>'
+                            continue
+                        msgs.append(f'{when}: {name}.{label} raised {type(e).__name__}: {e}')
+                        break
+                    if is_path and not _norm(shown) and args != (str(o['stmt']),):
+                        note('path-script-not-displayable')      # nothing on display is not a wrong script on display
+                        continue
+                    if _norm(shown) != want:
+                        msgs.append(f"{when}: {name}.{label} shows {list(shown)!r}; {name}'s script"
+                                    f"{' (the one its run is executing)' if o['state'] == 'running' else ''} is {o['text']!r}")
+                        break
+                    bad = None
+                    for n in range(0, len(want) + 2):
+                        line = nl.get_source_line(n, *args)
+                        exp = want[n - 1] if 1 <= n <= len(want) else ''
+                        if line != exp:
+                            bad = (n, line, exp)
+                            break
+                    if bad:
+                        msgs.append(f"{when}: {name}.get_source_line({bad[0]}{''.join(', ' + repr(a) for a in args)}) shows {bad[1]!r}; "
+                                    f"line {bad[0]} of {name}'s script is {bad[2]!r}")
+                        break
+
+        async def call(what: str, *coros: Any) -> None:
+            ts = [asyncio.ensure_future(c) for c in coros]
+            await lifecycle.settle()
+            pend = [t for t in ts if not t.done()]
+            for t in pend:
+                t.cancel()
+            if pend:
+                await lifecycle.settle()
+                raise RuntimeError(f'{what} did not return')
+            for t in ts:
+                t.result()
+
+        def reset_kw(o: dict, st: Any) -> dict:
+            if st is None:
+                return {}
+            s = mk(st)
+            o['pending'] = (s, st[1])
+            return {'statement': s}
+
+        def reset_done(o: dict) -> None:
+            if o.get('pending'):
+                o['stmt'], o['text'] = o.pop('pending')
+            o['state'] = 'initialized'
+
+        for k, op in enumerate(spec['ops']):
+            kind = op[0]
+            when = f'after operation {k} {op!r}'
+            if kind == 'start':
+                o = objs[op[1]]
+                await call(f"{o['name']}.start()", o['nl'].start())
+                o['state'] = 'initialized'
+            elif kind == 'pstart':
+                await call('start() of several objects at once', *[objs[j]['nl'].start() for j in op[1]])
+                for j in op[1]:
+                    objs[j]['state'] = 'initialized'
+            elif kind == 'reset':
+                o = objs[op[1]]
+                await call(f"{o['name']}.reset()", o['nl'].reset(**reset_kw(o, op[2])))
+                reset_done(o)
+            elif kind == 'preset':
+                await call('reset() of several objects at once', *[objs[j]['nl'].reset(**reset_kw(objs[j], st)) for j, st in op[1]])
+                for j, _ in op[1]:
+                    reset_done(objs[j])
+            elif kind == 'run':
+                o = objs[op[1]]
+                name = o['name']
+                n0 = len(world.children)
+                look(f'before operation {k} {op!r}')
+                await call(f'{name}.run()', o['nl'].run())
+                new = world.children[n0:]
+                if len(new) != 1:
+                    raise RuntimeError(f'{name}.run() started {len(new)} children')
+                o['child'], o['state'] = new[0], 'running'
+                ra = new[0].run_arg
+                if ra.statement != o['stmt']:
+                    msgs.append(f"{when}: the run of {name} executes {ra.statement!r}; {name}'s script on display was {o['stmt']!r}")
+                ri = o['nl'].get('run_info')
+                if ri.run_no != ra.run_no or o['nl'].run_no != ra.run_no:
+                    msgs.append(f'{when}: the run of {name} executes as run {ra.run_no}; run info says {ri.run_no}, run_no {o["nl"].run_no}')
+                if isinstance(o['stmt'], str) and ri.script != o['stmt']:
+                    msgs.append(f"{when}: the run info of {name}'s run reports the script {ri.script!r}; the run executes {ra.statement!r}")
+            elif kind == 'exit':
+                o = objs[op[1]]
+                o['child'].exit(RunResult(ret=None), exitcode=0)
+                await lifecycle.settle()
+                if o['nl'].state != 'finished':
+                    raise RuntimeError(f"{o['name']} is {o['nl'].state!r} after its child has exited")
+                o['state'] = 'finished'
+            elif kind == 'close':
+                o = objs[op[1]]
+                await call(f"{o['name']}.close()", o['nl'].close())
+                o['state'] = 'closed'
+            else:
+                raise ValueError(op)
+            look(when)
+            if len(msgs) >= 6:
+                break
+        for o in objs:
+            if o['state'] == 'running':
+                o['child'].exit(RunResult(ret=None), exitcode=0)
+        await lifecycle.settle()
+        for o in objs:
+            if o['state'] in MULTI_LIVE:
+                await asyncio.wait_for(o['nl'].close(), timeout=5)
+        await lifecycle.settle()
+
+    fakes.install()
+    sched = spec.get('schedule')
+    chooser = ctl.Fifo() if sched is None else ctl.Rand(random.Random(sched))
+    try:
+        with tempfile.TemporaryDirectory(prefix='nlv-c14-') as tmp:
+            ctl.run(lambda: main(tmp), chooser)
+    except (Exception, ctl.StepBudgetExceeded) as e:  # noqa
+        return {'error': f'{type(e).__name__}: {e}', 'msgs': msgs, 'notes': notes}
+    return {'msgs': msgs, 'notes': notes}
+
+
+def multi_nontrivial(spec: dict) -> bool:
+    """some object is looked at after ANOTHER object has been started / reset with a script, while the first is live"""
+    live: set = set()
+    for op in spec['ops']:
+        k = op[0]
+        who = [op[1]] if k in ('start', 'reset', 'run', 'exit', 'close') else ([j for j in op[1]] if k == 'pstart' else [j for j, _ in op[1]])
+        publishes = k in ('start', 'pstart') or (k == 'reset' and op[2] is not None) or (k == 'preset' and any(st is not None for _, st in op[1]))
+        if publishes and (live - set(who) or len(who) > 1):
+            return True
+        if k in ('start', 'pstart'):
+            live |= set(who)
+        if k == 'close':
+            live -= set(who)
+    return False
+
+
+def run_multi(chk: common.Check, oracle_fail: list) -> None:
+    rng = chk.rng
+    specs = []
+    for s in multi_corpus():
+        specs.append(dict(s, schedule=None))
+        specs.append(dict(s, schedule=rng.randrange(10 ** 6)))
+    for _ in range(40 if chk.tier == 'quick' else 400):
+        s = gen_multi(rng, rng.choice([2, 2, 3]), rng.randint(5, 14))
+        s['schedule'] = None if rng.random() < 0.5 else rng.randrange(10 ** 6)
+        specs.append(s)
+    for s in specs:
+        r = multi_object(s)
+        chk.cov.case(('multi-object', s), trivial=not multi_nontrivial(s))
+        chk.cov.count('kinds', 'multi-object-display')
+        for k, v in r['notes'].items():
+            chk.cov.count('multi_object', k, v)
+        for op in s['ops']:
+            chk.cov.count('multi_object_ops', op[0])
+        m = list(r['msgs'])
+        if 'error' in r:
+            m.append(f'scenario failed: {r["error"]}')
+        if m:
+            oracle_fail.append(({'multi_object': s}, [f'several Nextline objects in one process: {m[0]}'] + m[1:], None))
+
+
 def run(chk: common.Check) -> None:
     chk.cov.rule = ('serial histories (as C01) with reset carrying every subset of {statement, run_no_start_from, trace_threads, trace_modules}, '
                     'initial options varied; observables: run_no/run_info/statement publications and the RunArg handed to the simulated child; '
-                    'compared with the Lean model; overlapping calls (oracle only). Non-trivial: at least one reset with options followed by a run; '
+                    'compared with the Lean model; overlapping calls (oracle only); two or three objects in one process and one loop, started / '
+                    'reset / run in interleaved orders (serial and at once, FIFO and random schedules), scripts given as str and as path: every '
+                    'live object displays (statement, get_source, get_source_line) and executes (RunArg, run info) its own script. Non-trivial: at least one reset with options followed by a run; '
                     'distinct = distinct (options, history, schedule kind).')
     chk.assumptions += ['serial histories (reset ∥ run overlap is known finding F-A2)']
     L = 3 if chk.tier == 'quick' else 4
@@ -138,6 +466,7 @@ def run(chk: common.Check) -> None:
                     m.append(f"reset(run_no_start_from=100) and run() {d} steps apart: the run executes as number {r['run_no']}, the number on display is {r['run_no_displayed']}")
             if m:
                 oracle_fail.append(({'overlap': r}, m, None))
+    run_multi(chk, oracle_fail)
     # real spawn children, two runs of one object, the second after reset(run_no_start_from=10): every record of the second run —
     # run info, trace info, prompt info, captured stdout — carries the number published for it
     script = 'import threading\ndef w():\n    print("in thread")\nt = threading.Thread(target=w)\nt.start()\nt.join()\nprint("in main")\n'
